@@ -117,11 +117,19 @@ theorem parseLines_noBlank (lines : List Str) (nodes : List Node) (h : parseLine
     allLinesL nonBlank nodes = true :=
   parseFuel_noBlank _ _ _ _ h
 
+theorem allCmdsL_text (p : Str → Bool) (nodes : List Node) : allCmdsL (fun s _ => p s) nodes = allLinesL p nodes :=
+  allCmdsL_of_text p _ nodes (Nat.le_refl _)
+
+/-- `nonBlank` as a predicate of the hereditary walk (it ignores whether a block follows) -/
+abbrev nbq : Str → Bool → Bool := fun s _ => nonBlank s
+
 /-- hence every file system satisfies the invariant for `nonBlank` -/
-theorem fsOk_nonBlank (fs : FS) : FSOk nonBlank fs := fun _ _ nodes _ hp => parseLines_noBlank _ nodes hp
+theorem fsOk_nonBlank (fs : FS) : FSOk nbq fs := fun _ _ nodes _ hp => by
+  rw [show allCmdsL nbq nodes = allLinesL nonBlank nodes from allCmdsL_text nonBlank nodes]
+  exact parseLines_noBlank _ nodes hp
 
 /-- the C09 instance: nothing is asked of the output -/
-theorem hspec_nonBlank : HSpec nonBlank (fun _ => True) :=
-  ⟨splitWs1_of_nonBlank, by intros; trivial, by intros; trivial⟩
+theorem hspec_nonBlank : HSpec nbq (fun _ => True) :=
+  ⟨fun s _ h => splitWs1_of_nonBlank s h, by intros; trivial, by intros; trivial⟩
 
 end Duckling
